@@ -3,7 +3,7 @@
 set -u
 M=$1; CFG=$2; OUT=${3:-/tmp/t1/out_$M.txt}
 S=$(mktemp -d); cp /verif/spec/* $S/; mkdir -p $(dirname $OUT)
-( cd $S && /usr/bin/time -f "%e s wall" timeout ${TMO:-300} java -XX:+UseParallelGC -XX:ParallelGCThreads=4 -Xmx${HEAP:-4g} -Xss512m -cp /opt/veriftools/tla/tla2tools.jar:/opt/veriftools/tla/CommunityModules-deps.jar tlc2.TLC -workers ${W:-16} -metadir $S/meta -config $CFG ${EXTRA:-} $M.tla > $OUT 2>&1 )
+( cd $S && /usr/bin/time -f "%e s wall" timeout ${TMO:-300} java -Djava.io.tmpdir=$S -XX:+UseParallelGC -XX:ParallelGCThreads=4 -Xmx${HEAP:-4g} -Xss512m -cp /opt/veriftools/tla/tla2tools.jar:/opt/veriftools/tla/CommunityModules-deps.jar tlc2.TLC -workers ${W:-16} -metadir $S/meta -config $CFG ${EXTRA:-} $M.tla > $OUT 2>&1 )
 grep -v '^"' $OUT | grep -v "^Parsing\|^Semantic proc\|^Linting\|^Picked" | grep -i -m3 -A14 "error\|violated\|Unknown\|already defined" | head -${LINES_MAX:-60}
 grep -v '^"' $OUT | grep "states generated\|s wall" | tail -2
 echo "data lines: $(grep -c '^"' $OUT)  size: $(stat -c %s $OUT)"
